@@ -18,7 +18,7 @@ _RG_LEVEL = 'proof'
 
 PROPERTIES = {
     'C02': dict(
-        level='proof',
+        level='proof', always_standin=True,
         explanation='acquire/__enter__/acquire_ctx success => caller owns the in-process lock and an exclusive '
                     'flock on a fresh open file description; ownership discipline at every write; ordering on release; '
                     'exclusion lemma over the contracts',
@@ -27,18 +27,18 @@ PROPERTIES = {
         not_decided=['free-running contention of 16 OS processes rests on the kernel stub only'],
     ),
     'C12': dict(
-        level='proof',
+        level='proof', always_standin=True,
         explanation='FileLock against the abstract view (held_by, depth): whole-state postconditions of acquire/'
                     'release/__enter__/__exit__/acquire_ctx/__del__/__init__ under nondeterministic OSError faults at '
                     'every os.open/flock/close, polling-loop invariant with ghost clock; unbounded histories via the '
                     'well-formedness invariant',
-        assumptions=[_KERNEL, 'release() on an unheld lock does not race with another thread acquiring it (A-rel)',
+        assumptions=[_KERNEL, 'release() is not called by a thread while ANOTHER thread fully holds the lock through the same object (A-rel); a release during another thread\'s polling acquire is covered',
                      'the body of a with-block leaves the lock as it found it (A-body)',
                      'timeouts are None, -1 or >= 0; poll_interval >= 0'],
         not_decided=[],
     ),
     'C13': dict(
-        level='proof',
+        level='proof', always_standin=True,
         explanation='frame condition: on every path of every filelock function the only world effects are '
                     'os.open(lock_file, O_RDWR|O_CREAT[|O_TRUNC], no O_EXCL), flock, close, sleep; success of acquire '
                     'depends on flock only; with the kernel stub (a dead process owns no OFD) no crash point can leave '
@@ -249,7 +249,7 @@ PROPERTIES = {
                      'pre(run_coroutine_threadsafe).target_keeps_running FAILS on the current tree (known finding D8)'],
     ),
     'C18': dict(
-        level='proof',
+        level='proof', always_standin=True,
         explanation='split: ownership (each one-shot iterator consumed by exactly one of tee/map/compress), stream '
                     'denotations sel/rej as prefix-recursive spec functions, inductive lemma '
                     'compress(X, map(not_, C)) = rej(X, C) (base + step), callable mapped exactly once over the source, '
@@ -260,7 +260,7 @@ PROPERTIES = {
         not_decided=[],
     ),
     'C19': dict(
-        level='proof',
+        level='proof', always_standin=True,
         explanation='parse_pair against the spec function model_pair for ONE ARBITRARY item (string or pair), any '
                     'separator of length >= 1, any parser raising anything; parse_to_dict = dict(map(parse_pair, '
                     'items.items() if mapping else items)); default parser is the object ast.literal_eval; no '
@@ -272,7 +272,7 @@ PROPERTIES = {
         not_decided=[],
     ),
     'C20': dict(
-        level='proof',
+        level='proof', always_standin=True,
         explanation='gather_excs: one gather over ALL given awaitables with return_exceptions=True, loop invariant '
                     'out = F(R, only, i) with F the prefix-recursive filter isinstance(., only) (subclass relation '
                     'reflexive-transitive), so it yields exactly the matching exceptions in INPUT order; '
